@@ -1,6 +1,8 @@
 package isobmff
 
 import (
+	"bufio"
+
 	"github.com/evanoberholster/imagemeta/meta"
 	"github.com/pkg/errors"
 	"github.com/rs/zerolog"
@@ -35,6 +37,9 @@ func (b *box) Peek(n int) ([]byte, error) {
 // Discard advances the reader. Is limited by the
 // constrains of the box.
 func (b *box) Discard(n int) (int, error) {
+	if n < 0 {
+		return 0, bufio.ErrNegativeCount
+	}
 	if b.remain >= n {
 		b.remain -= n
 		if b.outer != nil {
